@@ -85,6 +85,7 @@ def check(rep, an, tier):
                 R.rule_extent_coincidence(rep, res, entry=name)
                 R.rule_index_space(rep, res, entry=name)
                 R.rule_display_neutral(rep, res, entry=name)
+                R.rule_full_block_count(rep, res, entry=name)
                 R.rule_iter_arrays_per_sample(rep, res, entry=name)
                 R.rule_type_errors(rep, res, "SHAPE", "R-STACK", name) if cfg["bs"] != "sym" else None
                 flow_params(rep, res, name, cfg)
